@@ -30,10 +30,24 @@ def sources_of(case):
     return [b for b in case['branches'] if b['ctor'] in ('voltage_source', 'current_source') and b['args'][0] != [0.0, 0.0]]
 
 
+_SHARED = {}
+
+
+def shared_network(case):
+    """ONE implementation Network object per case: all sub-networks of a decomposition are derived from the same object, the way
+    a user loops `for s in sources: ...(network, keep=[s])`; an operation that edits its input then corrupts the later blocks"""
+    import json
+    key = json.dumps(case, sort_keys=True, default=str)
+    if _SHARED.get('key') != key:
+        _SHARED.clear()
+        _SHARED.update(key=key, net=netgen.impl_network(case))
+    return _SHARED['net']
+
+
 def impl_keep_only(case, block_ids):
     """library zeroing: keep the sources in block_ids, deactivate every other source. returns case-form network"""
     from CircuitCalculator.Network import transformers as trf
-    net = netgen.impl_network(case)
+    net = shared_network(case)
     keep = [net[i].element for i in block_ids]
     n1 = trf.short_circuitify_voltage_sources(net, keep=keep)
     n2 = trf.open_circuitify_current_sources(n1, keep=keep)
@@ -140,6 +154,9 @@ def examine_case(ctx, case, rng):
         for i in acc_v:
             acc_v[i] += rs['v'][i]
             acc_f[i] += fs[i]
+    if netgen.network_to_case(shared_network(case))['branches'] != netgen.network_to_case(netgen.impl_network(case))['branches']:
+        ctx.violation('C04:zeroing-modifies-its-input', 'the network handed to the source-zeroing operations was modified by them',
+                      {'network': case, 'blocks': blocks})
     if okblocks:
         nb = len(blocks) + 1
         for n, x in acc_phi.items():
